@@ -1,2 +1,2 @@
 #include "c01_exec.h"
-namespace c01 { void run_full(vh::Case& c, const stc::History& h) { exec_history<Gudhi::Simplex_tree_options_full_featured>(c, h, "full"); } }
+namespace c01 { void run_full(vh::Case& c, const stc::History& h, int sample) { exec_history<Gudhi::Simplex_tree_options_full_featured>(c, h, "full", sample); } }
